@@ -213,6 +213,21 @@ func runCheck(propID, repo, verif, tier string, verbose bool) int {
 	if tier == "thorough" {
 		opts.TimeoutS = 30
 	}
+	for _, kf := range loadKnownFindings(verif) {
+		if kf.Prop != propID {
+			continue
+		}
+		for _, u := range units {
+			if u.Enc == nil {
+				continue
+			}
+			for _, o := range u.Enc.obls {
+				if o.Name == kf.Obl {
+					o.Known = true
+				}
+			}
+		}
+	}
 	solveAll(units, opts)
 
 	known := loadKnownFindings(verif)
